@@ -92,6 +92,10 @@ def run_on(prop, repo, edits):
 
 
 def evaluate(prop, m, repo, base):
+    if m.get("property") and m["property"] != prop:
+        prop = m["property"]
+        base = baseline_keys(prop, repo)
+        m = dict(m, expect=[x.split(":", 1)[1] if x.startswith(prop + ":") else x for x in m.get("expect", [])])
     keys, err = run_on(prop, repo, m["edits"])
     res = {"id": m["id"], "kind": m["kind"], "property": prop}
     if err:
